@@ -3,7 +3,9 @@ Tie T1 for x/incentives (owning property C09).  `distributeInternal` is a loop n
 `big.Int`s: Deliverable B — its ordered operator / comparison / call list (operands numbered by declaration order) is
 pinned.  The per-lock share `coin·lockAmt / (lockSum·remainEpochs)` is `Mul(v30,v30,coin.Amount)`, `Quo(v30,v30,v24)`
 with `v24` = `lockSum.MulRaw(remainEpochs)`: mirrored by `Incentives.lockCoins` (`(c.2 * amt).tdiv den`), the
-threshold tests `LT` by `Incentives.valuable`, the positivity test `Sign() == 1` by `0 < q`.
+minimum-value check by `Incentives.minFilter` (`==(v28.Denom,v7.Denom)` / `LT(v29,v7.Amount)`: the minimum-value denom
+itself; `LT(v29,v35.Amount)`: cache miss, compared with the fresh quote; `IsZero(v31)` / `LT(v29,v31)`: cache hit, a cached
+zero reads "no route"), the positivity test `Sign() == 1` by `0 < q`.
 -/
 import OsmoVerif.Gen.IncentivesFn
 
